@@ -1,4 +1,6 @@
 import CalmVerif.Props.C01
+import CalmVerif.Props.C01typed
+import CalmVerif.Props.C01tok
 open CalmVerif.Props.C01
 
 #print axioms print_ignores_positions
@@ -35,3 +37,21 @@ open CalmVerif.Props.C01
 #check @no_unit_tuples
 #print axioms pretty_relexes_partial
 #check @pretty_relexes_partial
+#print axioms CalmVerif.Props.C01typed.actions_typed
+#check @CalmVerif.Props.C01typed.actions_typed
+#print axioms CalmVerif.Props.C01typed.accept_entry_ok
+#check @CalmVerif.Props.C01typed.accept_entry_ok
+#print axioms CalmVerif.Props.C01typed.fixed_spellings_ok
+#check @CalmVerif.Props.C01typed.fixed_spellings_ok
+#print axioms CalmVerif.Props.C01typed.parsed_tree_well_typed
+#check @CalmVerif.Props.C01typed.parsed_tree_well_typed
+#print axioms CalmVerif.Props.C01typed.parsed_good
+#check @CalmVerif.Props.C01typed.parsed_good
+#print axioms CalmVerif.Props.C01tok.token_texts_ok
+#check @CalmVerif.Props.C01tok.token_texts_ok
+#print axioms CalmVerif.Props.C01tok.parsed_tree_well_typed'
+#check @CalmVerif.Props.C01tok.parsed_tree_well_typed'
+#print axioms CalmVerif.Props.C01tok.parsed_pretty_lines_indented'
+#check @CalmVerif.Props.C01tok.parsed_pretty_lines_indented'
+#print axioms CalmVerif.Props.C01tok.parsed_pretty_ends_with_one_newline'
+#check @CalmVerif.Props.C01tok.parsed_pretty_ends_with_one_newline'
